@@ -5,7 +5,11 @@ INVARIANTS Emit Identities
 CHECK_DEADLOCK FALSE
 CONSTANTS
   Mode = "wrap"
-  MaxDepth = 2
+  MaxDepth = 3
   WrapSet = "full"
   SlRange = 2
   EmitAst = FALSE
+  ExcludeFilterOnNonArray = TRUE
+  ExcludeMergeNoOverride = TRUE
+  ExcludeNotBeforePipe = TRUE
+  ExcludePipeIntoLiteral = TRUE
